@@ -578,4 +578,120 @@ theorem fStringPart_total (inp : List Char) :
       simp only [h1, splitAtByte_prefix, hq]
       simp
 
+/-! ## the brace pass run on an arm given as data (`partTextWith`) -/
+
+/-- what the documented pass does after a backslash: the next character is
+    consumed whatever it is; after `u` a following `{` starts a skip to just
+    past the closing `}` -/
+def armDoc : List Char → Nat
+  | [] => 0
+  | [_] => 1
+  | d :: e :: cs => if d == 'u' && e == '{' then 2 + skipCount '}' cs else 1
+
+theorem skipCount_le (stop : Char) (cs : List Char) : skipCount stop cs ≤ cs.length := by
+  induction cs with
+  | nil => simp [skipCount]
+  | cons c cs ih => simp only [skipCount]; split <;> simp <;> omega
+
+theorem go_true_nil (acc : List Char) : partTextGo true [] acc = unescape acc.reverse := by
+  rw [partTextGo.eq_def]
+
+/-- inside `\u{`: everything up to and including the next `}` joins the pending piece -/
+theorem go_inU (cs acc : List Char) :
+    partTextGo true cs acc =
+      partTextGo false (cs.drop (skipCount '}' cs)) ((cs.take (skipCount '}' cs)).reverse ++ acc) := by
+  induction cs generalizing acc with
+  | nil => simp [skipCount, go_true_nil, go_nil]
+  | cons c cs ih =>
+    rw [partTextGo.eq_def]
+    by_cases h : c = '}'
+    · subst h
+      simp [skipCount]
+    · have h1 : (c != '}') = true := by simp [h]
+      have h2 : (c == '}') = false := by simp [h]
+      simp only [h1, skipCount, h2, Bool.false_eq_true, if_false, List.drop_succ_cons, List.take_succ_cons,
+        List.reverse_cons, List.append_assoc, List.singleton_append]
+      exact ih _
+
+theorem armDoc_le (cs : List Char) : armDoc cs ≤ cs.length := by
+  match cs with
+  | [] => simp [armDoc]
+  | [_] => simp [armDoc]
+  | d :: e :: cs =>
+    simp only [armDoc]
+    have := skipCount_le '}' cs
+    split <;> simp <;> omega
+
+/-- the backslash arm of the hand model, in terms of `armDoc` -/
+theorem go_backslash (cs acc : List Char) :
+    partTextGo false ('\\' :: cs) acc =
+      partTextGo false (cs.drop (armDoc cs)) ((cs.take (armDoc cs)).reverse ++ '\\' :: acc) := by
+  match cs with
+  | [] => rw [partTextGo.eq_def]; simp [armDoc, go_nil]
+  | [d] => rw [partTextGo.eq_def]; simp [armDoc]
+  | d :: e :: cs =>
+    rw [partTextGo.eq_def]
+    by_cases h : (d == 'u' && e == '{') = true
+    · simp only [beq_self_eq_true, if_true, h, armDoc]
+      rw [go_inU]
+      have : 2 + skipCount '}' cs = skipCount '}' cs + 1 + 1 := by omega
+      simp [this]
+    · have h' : (d == 'u' && e == '{') = false := by simpa using h
+      simp [h', armDoc]
+
+theorem partTextWith_doc_aux (n : Nat) : ∀ (raw acc : List Char), raw.length ≤ n →
+    partTextWith armDoc ['{', '}'] raw acc = partTextGo false raw acc := by
+  induction n with
+  | zero =>
+    intro raw acc h
+    have : raw = [] := List.length_eq_zero_iff.mp (by omega)
+    subst this
+    rw [partTextWith, go_nil]
+  | succ n ih =>
+    intro raw acc hn
+    match raw with
+    | [] => rw [partTextWith, go_nil]
+    | c :: cs =>
+      have hlen : cs.length ≤ n := by simp at hn; omega
+      rw [partTextWith]
+      by_cases hb : c = '\\'
+      · subst hb
+        simp only [beq_self_eq_true, if_true]
+        rw [go_backslash]
+        exact ih _ _ (by simp only [List.length_drop]; omega)
+      · have hb' : (c == '\\') = false := by simp [hb]
+        simp only [hb', Bool.false_eq_true, if_false]
+        by_cases hbr : (['{', '}'].contains c && cs.head? == some c) = true
+        · simp only [hbr, if_true]
+          obtain ⟨hc, hh⟩ := Bool.and_eq_true_iff.mp hbr
+          have hc' : c = '{' ∨ c = '}' := by simpa using hc
+          match cs, hh, hlen with
+          | d :: S, hh, hlen =>
+            have : d = c := by simpa using hh
+            subst this
+            rw [go_brace d S acc hc', List.tail_cons, ih S [] (by simp at hlen; omega)]
+            cases unescape acc.reverse <;> cases partTextGo false S [] <;> rfl
+        · have hbr' : (['{', '}'].contains c && cs.head? == some c) = false := by simpa using hbr
+          simp only [hbr', Bool.false_eq_true, if_false]
+          rw [ih cs (c :: acc) hlen]
+          -- the hand model copies `c` as well
+          symm
+          match cs with
+          | [] => rw [go_nil, partTextGo.eq_def]
+          | [d] =>
+            rw [partTextGo.eq_def]
+            have : ((c == '{' || c == '}') && d == c) = false := by
+              by_cases h1 : c = '{' <;> by_cases h2 : c = '}' <;> by_cases h3 : d = c <;> simp_all
+            simp [hb', this]
+          | d :: e :: S =>
+            rw [partTextGo.eq_def]
+            have : ((c == '{' || c == '}') && d == c) = false := by
+              by_cases h1 : c = '{' <;> by_cases h2 : c = '}' <;> by_cases h3 : d = c <;> simp_all
+            simp [hb', this]
+
+/-- the pass run on `armDoc` and the braces `{`, `}` IS the hand model, for EVERY text -/
+theorem partTextWith_doc (raw acc : List Char) :
+    partTextWith armDoc ['{', '}'] raw acc = partTextGo false raw acc :=
+  partTextWith_doc_aux raw.length raw acc (Nat.le_refl _)
+
 end RotoV.FString
